@@ -25,7 +25,7 @@ ASSUMPTIONS = [
     "monotonicity law evaluated on trees without negated rows (a negated row is meant to be dropped under cant_delete)",
     "juniper 'inactive:' rows are not generated",
 ]
-FLOORS = {"quick": {"filters_compared": 3000, "strict_raises_agreed": 300, "strict_passes_agreed": 100, "monotone_checked": 1000, "idempotent_checked": 3000, "explicit_negated_rule_cases": 400, "production_merges_checked": 1500, "diff_texts_filtered": 600, "ignore_rule_filters": 300, "slash_regex_filters": 300, "rows_under_an_inherited_global_rule_two_or_more_levels_down": 300, "acl_lines_with_tab_before_params": 2000, "acl_comment_lines_inside_blocks": 500, "inactive_row_filters": 600, "filters_of_partly_annotated_trees": 1500, "acl_rules_with_params_on_a_continuation_line": 300, "moved_rows_in_filtered_diff_texts": 500},
+FLOORS = {"quick": {"filter_acl_texts_behind_a_common_margin": 300, "filters_compared": 3000, "strict_raises_agreed": 300, "strict_passes_agreed": 100, "monotone_checked": 1000, "idempotent_checked": 3000, "explicit_negated_rule_cases": 400, "production_merges_checked": 1500, "diff_texts_filtered": 600, "ignore_rule_filters": 300, "slash_regex_filters": 300, "rows_under_an_inherited_global_rule_two_or_more_levels_down": 300, "acl_lines_with_tab_before_params": 2000, "acl_comment_lines_inside_blocks": 500, "inactive_row_filters": 600, "filters_of_partly_annotated_trees": 1500, "acl_rules_with_params_on_a_continuation_line": 300, "moved_rows_in_filtered_diff_texts": 500},
           "thorough": {"filters_compared": 100000, "strict_raises_agreed": 10000, "strict_passes_agreed": 3000, "monotone_checked": 30000, "idempotent_checked": 100000, "explicit_negated_rule_cases": 12000, "production_merges_checked": 50000, "diff_texts_filtered": 20000, "ignore_rule_filters": 10000, "slash_regex_filters": 5000}}
 VENDORS = ["huawei", "cisco", "pc", "routeros", "juniper", "arista"]
 KNOWN_WINNER = "C06/children-rules-lost-when-global-or-negated-match-outranks-local"
@@ -415,13 +415,20 @@ def check_case(seed, acc, negpair=False, deep=False):
         from annet.vendors import registry_connector
         fmt = registry_connector.get()[vname].make_formatter()
         text_in = fmt.join(t)
+        atext = texts["A"]
+        if seed % 3 == 0:
+            # the ACL as it sits in a Python source or a YAML file: every line behind one common left margin
+            mrng = random.Random(seed ^ 0x3A6)
+            m_ = mrng.choice(["  ", "    ", "        "])
+            atext = mrng.choice(["", "\n"]) + "\n".join(m_ + ln if ln.strip() else ln for ln in atext.split("\n")) + mrng.choice(["", "\n", "\n" + m_])
+            acc.count("filter_acl_texts_behind_a_common_margin", 1 if sum(1 for ln in atext.split("\n") if ln.startswith(m_) and not ln[len(m_):].startswith(" ")) >= 2 else 0)
         try:
-            out = filter_acl.filter_config(filter_acl.make_acl(texts["A"], vname), fmt, text_in)
+            out = filter_acl.filter_config(filter_acl.make_acl(atext, vname), fmt, text_in)
             acc.count("text_entry_checked")
             if out != fmt.join(unplain(res["A"])):
-                acc.violation("C06/filter_config-disagrees", "the text entry point filters differently from the tree entry point", dict(w, text_out=out))
+                acc.violation("C06/filter_config-disagrees", "the text entry point filters differently from the tree entry point", dict(w, text_out=out, acl_text_given=atext))
         except Exception as e:
-            acc.violation("C06/filter_config-exception/%s" % type(e).__name__, "filter_config raised", dict(w, error=repr(e)[:200]))
+            acc.violation("C06/filter_config-exception/%s" % type(e).__name__, "filter_config raised", dict(w, error=repr(e)[:200], acl_text_given=atext))
     return w
 
 
